@@ -1430,7 +1430,7 @@ package gedcom
 //@   ghost copied iface
 //@   ghost nSet int = 0
 //@   ghost nAdd int = 0
-//@   oncall DeepCopy#1 check identity-from-left: arg0 == left && arg1 == document
+//@   oncall DeepCopy#1 check identity-from-left: arg0 == left0 && arg1 == document0
 //@   oncall DeepCopy#1 do r0 = result
 //@   ghost phase int = 0
 //@   oncall Node.Equals check compares-with-right-child: arg0 == n && arg1 == child
